@@ -25,6 +25,18 @@ Alphabet (complete enumeration, nothing sampled)
                  one-sided jump mass lies beyond +-100, so that the tail-mass equation at p = 0.99999 has no root inside the
                  library's search interval (input class `bound-beyond-100`, decided on the density), while at p = 0.9 the
                  root is ordinary; their probability-step axes run through the constructor's fall-back stepping
+                 BALANCED models (`_balanced_cases`; input class `one-sided-masses:balanced:tails-differ`, decided on the
+                 density): the two one-sided jump masses beyond +-h/2 agree - to the last bit, or to 1e-5 / 1e-8 relative -
+                 while the tails differ, so that l != -r and each bound has to be the root of its own equation:
+                 HEM p = 0.5 with eta 25 / 20, 10 / 40 at h = 1e-6, 2e-7, 1e-7, 1e-9 (geometric, credit, probability-step;
+                 also exponential / reinit twins) and eta 20.05 / 20 at h = 2e-4 (uniform, 6e3 states); HEM with
+                 p / (1-p) = exp((eta1 - eta2) h/2) at the ordinary h = 0.1 (eta 25 / 20 and 20 / 25) and 0.2 (eta 10 / 40)
+                 for every model-based grid of the ordinary alphabet, as a margin of a copula model (BAL_CMODELS, also two
+                 IDENTICAL margins: ties in the min / max over the margins' roots), as the driver of an SDE model
+                 (BAL_WRAPPED) and reached / left through set-params in the histories; CGMY y = 1.5 at h = 1e-6 and y = 1.2
+                 at h = 5e-7 (g = 15, m = 20: masses within 7e-6; p = 0.99999 only); nearly symmetric Merton mu_j = 2e-7 and
+                 VG theta = 1e-7 (masses within 6e-6, bounds differ by 3e-7 / 1e-8: visible at p = 0.9 / 0.99).
+                 Controls (`...:balanced:symmetric-measure`): Merton mu_j = 0, CGMY g = m of the ordinary alphabet
   arguments      mc.alphabets.grid_specs(tier, dimension) plus the extras listed in `_extra_model_grids` (credit thresholds as
                  pairs / triples, asymmetric 1-d credit, a geometric grid at a low truncation probability);
                  sizes: n = 2 (one state per side), 4 (even), 601 (beyond 256 and, refined, 2048 states; thorough: 8193 ->
@@ -116,7 +128,11 @@ Outside the alphabet (statement silent): credit thresholds that are not strictly
   bounds for create_with_bounds within h of the origin, grids whose axes are passed in malformed to the base constructor,
   CTMCCredit / CTMCGridProbabilityStep for SDE models (not declared), a probability-step grid whose model is changed AFTER
   the construction (its middle() keeps a reference to the measure; the statement ties refine() to the grid's own middle()),
-  changes of a model through private attributes; probability-step gaps narrower than 3e-7 (the pinned tree's own root search
+  changes of a model through private attributes; uniform grids of more than ~1e4 states from a small h (refine() of the pinned
+  tree is quadratic in the number of states: 3e5 states take minutes; the small-h classes use the geometric / credit /
+  probability-step constructors, which call the same truncation search); truncation probability 0.9 for infinite-activity
+  models at h <= 1e-6 (the bound lies within 3h of the origin where the 2e-12 of the library's root search is worth 1e-8 of
+  the tail share: above TOL_TAIL); probability-step gaps narrower than 3e-7 (the pinned tree's own root search
   stops at 1e-10: some 30 refinements of h = 0.1, beyond any enumerable depth);
   argument forms the pinned tree rejects (integer-dtype or float32 axes, a tuple of axes, a scalar threshold for a copula
   model, a float number of points: TypeError / ValueError; an integer h is IN the alphabet: counted where rejected), a
@@ -281,6 +297,7 @@ BAL_HEM_HALF = _hem(0.5, 25.0, 20.0)
 BAL_HEM_HALF2 = _hem(0.5, 10.0, 40.0)
 BAL_HEM_CLOSE = _hem(0.5, 20.05, 20.0)
 BAL_HEM_01 = _hem(_balanced_p(25.0, 20.0, 0.1), 25.0, 20.0)     # balanced at h = 0.1
+BAL_HEM_01B = _hem(_balanced_p(20.0, 25.0, 0.1), 20.0, 25.0)    # balanced at h = 0.1, the lighter tail on the left
 BAL_HEM_02 = _hem(_balanced_p(10.0, 40.0, 0.2), 10.0, 40.0)     # balanced at h = 0.2
 NEAR_SYM_MERTON = {"family": "merton", "exp": False, "params": {"sigma": 0.0, "sigma_j": 0.1, "mu_j": 2e-7, "intensity": 3.0}}
 NEAR_SYM_VG = {"family": "vg", "exp": False, "params": {"sigma": 0.1, "nu": 0.06, "theta": 1e-7}}
@@ -331,7 +348,7 @@ def _balanced_cases(tier, add, g1):
         for g in small(h, ps=(0.99999,)):
             add(g, 1, model=m)
     # equal masses at an ordinary h, nearly symmetric measures: every model-based constructor of the ordinary alphabet
-    for m in (BAL_HEM_01, BAL_HEM_02, NEAR_SYM_MERTON, NEAR_SYM_VG, dict(BAL_HEM_01, via="reinit"),
+    for m in (BAL_HEM_01, BAL_HEM_01B, BAL_HEM_02, NEAR_SYM_MERTON, NEAR_SYM_VG, dict(BAL_HEM_01, via="reinit"),
               dict(BAL_HEM_02, exp=True, r=0.02, d=0.0, spot=100.0)):
         for g in g1:
             add(g, g.get("dim", 1), model=m)
@@ -1110,6 +1127,20 @@ def check_case(sh, case):
         return _sub_time(sh, case)
     if case["sub"] == "mhist":
         return _sub_mhist(sh, case)
+    if case["grid"].get("h", 1.0) <= 1e-5:
+        # small h, y > 1: scipy's quad warns ("slowly convergent") on the density oracle although its error estimate, the
+        # only thing the verdicts rely on, is below the tolerance: the warnings are counted instead of printed
+        import warnings
+
+        from scipy.integrate import IntegrationWarning
+
+        with warnings.catch_warnings(record=True) as caught:
+            warnings.simplefilter("always", IntegrationWarning)
+            _sub_grid(sh, case)
+        n = sum(1 for w in caught if issubclass(w.category, IntegrationWarning))
+        if n:
+            sh.count("oracle_quadrature_warnings_at_small_h", n)
+        return None
     return _sub_grid(sh, case)
 
 
